@@ -99,6 +99,8 @@ def float_search(case, r, fail):
     except B.Limit:
         fail("oracle", "the enumerator does not stop (float weights)", "")
     except Exception as e:  # noqa
+        if type(e).__name__ in ("CaseTimeout", "TimeoutError"):
+            raise
         fail("oracle", "the enumerator raises instead of enumerating (float weights)", type(e).__name__)
         return
     if len(Y) != len(set(Y)):
